@@ -89,6 +89,11 @@ def realise(desc: dict) -> Any:
     if kind in models.TREE_MODELS:
         return parser().parse(text, models.TREE_MODELS[kind])
     rule = 'BLOCK_COMMENT' if kind == 'BLOCK_COMMENT_IND' else kind
+    if 'first' in desc:
+        # a token built with another text of its class and given its final text while it is still free (not in any store)
+        tok = models.TOKEN_MODELS[rule].from_raw_text(desc['first'])
+        tok.raw_text = text
+        return tok
     return models.TOKEN_MODELS[rule].from_raw_text(text)
 
 
